@@ -23,6 +23,12 @@ fn stub_value(_s: &Strain) -> f64 {
 
 /// returns the state and, for every k, (combo, hold notes) of the first k objects
 fn any_state(n: usize) -> (ManiaGradualDifficulty, [(u32, u32); 6]) {
+    any_state_limited(n, 0)
+}
+
+/// `extra` > 0: a calculator created with a passed_objects limit - the map has n + extra objects, but only the first
+/// n are turned into difficulty objects and will be yielded
+fn any_state_limited(n: usize, extra: usize) -> (ManiaGradualDifficulty, [(u32, u32); 6]) {
     let mut is_circle = Vec::new();
     let mut prefix = [(0u32, 0u32); 6];
     let mut i = 0;
@@ -32,6 +38,11 @@ fn any_state(n: usize) -> (ManiaGradualDifficulty, [(u32, u32); 6]) {
         let (combo, holds) = prefix[i];
         prefix[i + 1] = (combo + 1, holds + if c { 0 } else { 1 });
         i += 1;
+    }
+    let mut e = 0;
+    while e < extra {
+        is_circle.push(kani::any());
+        e += 1;
     }
     let mut diffs = Vec::new();
     for i in 1..n {
@@ -59,14 +70,18 @@ fn any_state(n: usize) -> (ManiaGradualDifficulty, [(u32, u32); 6]) {
 }
 
 fn invariant(g: &ManiaGradualDifficulty, n: usize) -> bool {
-    g.objects_is_circle.len() == n
+    g.objects_is_circle.len() >= n
         && g.diff_objects.len() + 1 == if n == 0 { 1 } else { n }
         && g.idx <= g.diff_objects.len() + 1
         && (n > 0 || g.idx == 0)
 }
 
 fn step_protocol(n: usize) {
-    let (mut g, prefix) = any_state(n);
+    step_protocol_limited(n, 0)
+}
+
+fn step_protocol_limited(n: usize, extra: usize) {
+    let (mut g, prefix) = any_state_limited(n, extra);
     let idx0 = g.idx;
     let conv = g.is_convert;
     let remaining = n - idx0;
@@ -326,4 +341,16 @@ fn u12_mania_base_case() {
     base_case(1);
     base_case(2);
     base_case(3);
+}
+
+//@ obl: id=U12.mania.protocol.limited harness=u12_mania_protocol_limited props=C15,C02 tier=quick kind=bounded
+//@ fns: ManiaGradualDifficulty::next, ManiaGradualDifficulty::nth, ManiaGradualDifficulty::len, ManiaGradualDifficulty::size_hint
+//@ bound: bounded: calculator created with a passed_objects limit: map of 3 objects of which 2 are yielded; idx, k all usize
+//@ clause: as U12.mania.protocol.n0 for a limited calculator: len()/size_hint() count the values that will actually be produced (the difficulty objects), not the objects of the whole map
+#[kani::proof]
+#[kani::unwind(8)]
+#[kani::stub(<Strain as StrainSkill>::process, stub_process)]
+#[kani::stub(<Strain as StrainSkill>::cloned_difficulty_value, stub_value)]
+fn u12_mania_protocol_limited() {
+    step_protocol_limited(2, 1);
 }
